@@ -1,7 +1,7 @@
 """C11 — compiled schema matches what the source describes (checker-side matching obligations + compiler dependencies)."""
 import ast
 
-from .common import ctx, returns, calls_in_ctx, site, bound_args, full_text, bulk_appends
+from .common import ctx, returns, calls_in_ctx, site, bound_args, full_text, bulk_appends, explore
 from .lvs import merge_key_rule, match_rules, CK, CP, last_component_guarded
 from ..flow import callee_attr
 from ..loader import AnalysisError, norm
@@ -60,6 +60,38 @@ def run(R):
                    site(cm, construct))
     else:
         R.ok('C11.TBL.1', inst, site(cm, tti[0].ast))
+    # a temporary pattern keeps its constraints at every occurrence in an expanded chain
+    R.ob('C11.PRV.3', 'RuleChain.pattern_movement drops the constraints of a pattern seen earlier in the chain only for named patterns (equality with '
+                      'the binding then does the work); a temporary pattern - the same object when a rule is referenced twice in one name - is '
+                      'independent at every occurrence and keeps them')
+    pm = ctx(R, CP + '.Compiler.RuleChain.pattern_movement')
+    pm_prev = pm.f.node.args.args[2].arg
+    tagv = [nm for n_ in pm.cfg.nodes for (nm, v) in pm.cfg.defs_of(n_) if isinstance(v, ast.Call) and ast.unparse(v.func) == 'int' and '.id' in ast.unparse(v)]
+    R.need(len(tagv) == 1, 'pattern_movement: the numeric tag local was not found')
+    tagv = tagv[0]
+    empties = [r for r in returns(pm) if isinstance(r.ast.value, ast.Tuple) and len(r.ast.value.elts) == 3 and isinstance(r.ast.value.elts[1], ast.List)
+               and not r.ast.value.elts[1].elts and ast.unparse(r.ast.value.elts[0]) == tagv]
+    inst = pm.qual + ' :: constraints of a temporary pattern are kept when its number was seen before'
+    if not empties:
+        R.ok('C11.PRV.3', inst, site(pm, pm.f.node), 'no early exit without constraints')
+    else:
+        def atom(e):
+            if isinstance(e, ast.Compare) and len(e.ops) == 1:
+                l, r = ast.unparse(e.left), ast.unparse(e.comparators[0])
+                if isinstance(e.ops[0], (ast.In, ast.NotIn)) and l == tagv and r == pm_prev:
+                    return isinstance(e.ops[0], ast.In)                     # seen before
+                if l == tagv and r in ('0', '1') and type(e.ops[0]) in (ast.Gt, ast.GtE, ast.Lt, ast.LtE):
+                    # the tag is a temporary one: negative
+                    return {ast.Gt: False, ast.GtE: False, ast.Lt: True, ast.LtE: True}[type(e.ops[0])]
+            return None
+        reach = explore(pm, atom)
+        R.paths_examined += 1
+        if any(r.id in reach for r in empties):
+            R.fail('C11.PRV.3', inst, pm.qual, empties[0].ast, 'a pattern whose number was seen earlier in the chain leaves without its constraints whether it is named or temporary: '
+                   'when a rule with a constrained temporary pattern is referenced twice in one name, the second occurrence accepts any component '
+                   '(repro notes/repro/e23.py: `#r: _x & {_x: "a"|"b"}`, `#two: #r/"mid"/#r` matches /a/mid/zzz)', site(pm, empties[0].ast))
+        else:
+            R.ok('C11.PRV.3', inst, site(pm, empties[0].ast))
     # every occurrence of a temporary pattern is recorded so that a constraint on it applies to all of them
     R.ob('C11.PRV.2', 'a constraint on a temporary pattern applies to every occurrence of that pattern in the rule')
     inst = gp.qual + ' :: occurrences of a temporary pattern'
